@@ -100,7 +100,9 @@ def instr : P Instr := do
   | 36 => do let g ← nat; let u ← int; let v ← int; pure (.gAddEdge g u v)
   | 37 => do let g ← nat; let c ← optReg; let d ← str; pure (.tseitin g c d)
   | 38 => do let g ← nat; let fn ← bool; let onto ← bool; let d ← str; pure (.gphp g fn onto d)
-  | 39 => do let p ← nat; let n ← nat; let m ← nat; let cs ← listOf ints; let d ← str; pure (.planted p n m cs d)
+  | 39 => do
+      let p ← nat; let k ← nat; let n ← nat; let m ← nat; let cs ← listOf ints; let ds ← listOf ints; let d ← str
+      pure (.planted p k n m cs ds d)
   | 40 => do let f ← nat; pure (.liveGroup f)
   | _ => failure
 
@@ -123,7 +125,8 @@ def fmtReg (s : Store) : Option Nat → String
     match s[a]? with
     | some (.cnf _ _ _ _) =>
       match snap s a with
-      | some S => "F " ++ fmtCNF S.cnf ++ " H " ++ fmtHeader S.header ++ " N " ++ fmtNames S.names
+      | some S => "F " ++ fmtCNF S.cnf ++ " H " ++ fmtHeader S.header ++ " N " ++
+          fmtNames ((liveNames s a).getD S.names)     -- = S.names unless a live group refers to a caller's graph (O1)
       | none => "F ?"
     | some (.opb _ _ _ _) =>
       match osnap s a with
